@@ -1,72 +1,14 @@
-import Sylvia.Extracted.Tables
-import Sylvia.Lemmas.Tables
-import Sylvia.Util.Bytes
-import Sylvia.Model.Strip
-/-! Obligations over the tables regenerated from /repo's current sources. Each is a closed decidable
-statement; a source edit that changes a table makes the corresponding `decide` fail. -/
-namespace Obl
-open Sylvia Extracted
-
-/-- the translator found and classified everything it looks for -/
-theorem extraction_complete : Extracted.problems = [] := by decide
-
-/-- the documented vocabulary of `#[sv::msg(<kind>)]` -/
-theorem msgTypeNew_documented : msgTypeNew =
-    [(bytes! "exec", .exec), (bytes! "query", .query), (bytes! "instantiate", .instantiate),
-     (bytes! "migrate", .migrate), (bytes! "reply", .reply), (bytes! "sudo", .sudo)] := by decide
-
-theorem epDefaults_documented : epDefaults = [.instantiate, .exec, .query, .sudo] := by decide
-
-theorem replyOn_documented : replyOnNew =
-    [(bytes! "success", .success), (bytes! "error", .error), (bytes! "always", .always)] := by decide
-
-/-- the framework's own attributes (`sv::<name>`) -/
-theorem svAttributes_documented : svAttributes = [bytes! "custom", bytes! "error", bytes! "messages", bytes! "msg",
-    bytes! "override_entry_point", bytes! "attr", bytes! "msg_attr", bytes! "payload", bytes! "data", bytes! "features"] := by decide
-
-/-- context shape per kind: declared parameter names = values passed on = what the ctx tuple type lists -/
-theorem ctx_tables_agree : ∀ k ∈ Kind.all,
-    ((lookup ctxParams k).getD []).map Prod.fst = (lookup ctxValues k).getD [] ∧
-    ((lookup ctxParams k).getD []).map Prod.snd = (lookup ctxType k).getD [] ∧
-    (lookup ctxType k).getD [] =
-      (match k with
-       | .exec | .instantiate => [bytes! "DepsMut", bytes! "Env", bytes! "MessageInfo"]
-       | .migrate | .reply | .sudo => [bytes! "DepsMut", bytes! "Env"]
-       | .query => [bytes! "Deps", bytes! "Env"]) := by decide
-
-theorem epName_documented : ∀ k ∈ Kind.all, lookup epName k = some (match k with
-    | .exec => bytes! "execute" | .query => bytes! "query" | .instantiate => bytes! "instantiate"
-    | .migrate => bytes! "migrate" | .reply => bytes! "reply" | .sudo => bytes! "sudo") := by decide
-
-theorem msgName_documented : ∀ k ∈ Kind.all, lookup msgName k = some (match k with
-    | .exec => bytes! "ExecMsg" | .query => bytes! "QueryMsg" | .instantiate => bytes! "InstantiateMsg"
-    | .migrate => bytes! "MigrateMsg" | .reply => bytes! "ReplyMsg" | .sudo => bytes! "SudoMsg") := by decide
-
-theorem wrapperName_documented : ∀ k ∈ Kind.all, lookup wrapperName k = some (match k with
-    | .exec => bytes! "ContractExecMsg" | .query => bytes! "ContractQueryMsg" | .sudo => bytes! "ContractSudoMsg"
-    | .instantiate => bytes! "InstantiateMsg" | .migrate => bytes! "MigrateMsg" | .reply => bytes! "ReplyMsg") := by decide
-
-theorem accessor_documented : ∀ k ∈ Kind.all,
-    lookup accessorName k = some (match k with
-      | .exec => bytes! "Exec" | .query => bytes! "Query" | .instantiate => bytes! "Instantiate"
-      | .migrate => bytes! "Migrate" | .reply => bytes! "Reply" | .sudo => bytes! "Sudo") ∧
-    lookup accessorWrapperName k = some (match k with
-      | .exec => bytes! "ContractExec" | .query => bytes! "ContractQuery" | .sudo => bytes! "ContractSudo"
-      | .instantiate => bytes! "Instantiate" | .migrate => bytes! "Migrate" | .reply => bytes! "Reply") := by decide
-
-theorem result_and_leg : resultIsBinary.all (fun r => r.2 == (r.1 == .query)) = true ∧
-    (∀ k ∈ Kind.all, lookup dispatchLeg k = some (match k with
-      | .exec | .sudo => 0 | .query => 1 | _ => 2)) := by decide
-
-/-- `sv::msg` is itself recognised as a framework attribute (needed for idempotence of stripping) -/
-theorem msg_is_framework : ∀ a, Strip.isMsgAttr a = true → Strip.isFramework a = true := by
-  intro a h
-  have hp : a.path = ["sv", "msg"] := by simpa [Strip.isMsgAttr] using h
-  unfold Strip.isFramework
-  rw [hp]
-  decide
-
-theorem msgAttrFwd_is_msgType : ∀ s, lookup msgAttrFwdParse s = lookup msgTypeNew s :=
-  lookup_eq_of_rowsIn (by decide) (by decide)
-
-end Obl
+import Sylvia.Thm.Obl.T.msgTypeNew_documented
+import Sylvia.Thm.Obl.T.epDefaults_documented
+import Sylvia.Thm.Obl.T.replyOn_documented
+import Sylvia.Thm.Obl.T.svAttributes_documented
+import Sylvia.Thm.Obl.T.ctx_tables_agree
+import Sylvia.Thm.Obl.T.epName_documented
+import Sylvia.Thm.Obl.T.msgName_documented
+import Sylvia.Thm.Obl.T.wrapperName_documented
+import Sylvia.Thm.Obl.T.accessor_documented
+import Sylvia.Thm.Obl.T.result_and_leg
+import Sylvia.Thm.Obl.T.msg_is_framework
+import Sylvia.Thm.Obl.T.msgAttrFwd_is_msgType
+/-! Umbrella: the obligations over the regenerated tables live one per module under `Obl/T/`
+(and `Obl/Complete/Cxx` for the per-property completeness of the extraction). -/
